@@ -37,6 +37,8 @@ func runC01(c *an.Ctx) {
 	whoMayCancel(c, "R01i")
 	c.As(map[string]string{"R02a": "R01j", "R02b": "R01k", "R02c": "R01l", "R02g": "R01m"}, func() { r02abcg(c) })
 	c.As(map[string]string{"R09j": "R01n"}, func() { r09j(c) })
+	// round 8
+	r01o(c)
 }
 
 type fsmEvent struct {
@@ -239,6 +241,46 @@ func r01c(c *an.Ctx) {
 func forcedStateOK(c *an.Ctx, fn *ssa.Function, at ssa.Instruction, arg ssa.Value) (bool, string) {
 	if s, ok := an.ConstString(arg); ok {
 		return s == "ERROR" || s == "DONE", "constant " + s
+	}
+	// a captured local that holds the name (`name := wfState.String()` taken before the closure is made): every
+	// assignment of that local, judged where it is made
+	if u, isLoad := arg.(*ssa.UnOp); isLoad && u.Op == token.MUL {
+		if fv, isFV := u.X.(*ssa.FreeVar); isFV && fn.Parent() != nil {
+			for _, f := range an.WithAnon(an.OutermostParent(fn)) {
+				var mc *ssa.MakeClosure
+				an.Instrs(f, func(in ssa.Instruction) {
+					if m, ok := in.(*ssa.MakeClosure); ok && m.Fn == ssa.Value(fn) {
+						mc = m
+					}
+				})
+				if mc == nil {
+					continue
+				}
+				cell := an.Binding(mc, fv)
+				if cell == nil || cell.Referrers() == nil {
+					break
+				}
+				n, allOK := 0, true
+				for _, r := range *cell.Referrers() {
+					st, isSt := r.(*ssa.Store)
+					if !isSt || st.Addr != cell {
+						continue
+					}
+					n++
+					if _, isLd := st.Val.(*ssa.UnOp); isLd {
+						allOK = false // no chains of captured cells
+						continue
+					}
+					if ok, _ := forcedStateOK(c, st.Parent(), st, st.Val); !ok {
+						allOK = false
+					}
+				}
+				if n > 0 && allOK {
+					return true, "captured name, every assignment of which is ERROR/DONE"
+				}
+				break
+			}
+		}
 	}
 	// X.String() where X == sm.ERROR is known
 	call, ok := arg.(*ssa.Call)
